@@ -4,6 +4,7 @@ import (
 	"fmt"
 	"go/token"
 	"go/types"
+	"strings"
 
 	"golang.org/x/tools/go/ssa"
 
@@ -25,6 +26,7 @@ func c10(c *Ctx) {
 	c10caller(c)
 	c10entries(c)
 	workersClamp(c, "C10.R7", "core/mr")
+	c10panicChanPairing(c)
 }
 
 // userDyn: dynamic calls of the user-supplied functions (parameters, captured parameters, struct fields holding them).
@@ -666,4 +668,88 @@ func c10entries(c *Ctx) {
 			return true, ""
 		})
 	}
+}
+
+// c10panicChanPairing (C10.R8): the channel a generator goroutine reports its panic on is the one the
+// caller's select listens on. buildSource(generate, pc) starts the generator with pc; the pipeline
+// that consumes that source must be mapReduceWithPanicChan(source, pc, …) with the very same pc —
+// handing the source to an entry point that makes its own panic channel (MapReduceChan) leaves the
+// generator's panic unread: the source is never closed and the call neither returns nor re-panics
+// (seed r4-C10-3).
+func c10panicChanPairing(c *Ctx) {
+	rule := "C10.R8"
+	bs := c.P.Func(mrPkg, "buildSource")
+	impl := c.P.Func(mrPkg, "mapReduceWithPanicChan")
+	if bs == nil || impl == nil {
+		c.R.Undecided(rule, mrPkg+".buildSource", "anchor resolves", "buildSource / mapReduceWithPanicChan not found")
+		return
+	}
+	isInst := func(f, of *ssa.Function) bool {
+		return f != nil && (f == of || f.Origin() == of)
+	}
+	var bad []string
+	sites := 0
+	for _, fn := range c.P.AllFuncs(mrPkg) {
+		for _, b := range fn.Blocks {
+			for _, ins := range b.Instrs {
+				call, ok := ins.(*ssa.Call)
+				if !ok || !isInst(call.Call.StaticCallee(), bs) || len(call.Call.Args) < 2 {
+					continue
+				}
+				sites++
+				pc := call.Call.Args[1]
+				paired := false
+				// the source (possibly converted to a receive-only channel) as first argument
+				srcs := []ssa.Value{call}
+				for _, r := range *call.Referrers() {
+					if ct, ok := r.(*ssa.ChangeType); ok {
+						srcs = append(srcs, ct)
+					}
+				}
+				for _, src := range srcs {
+					for _, r := range *src.Referrers() {
+						use, ok := r.(ssa.CallInstruction)
+						if !ok {
+							continue
+						}
+						cc := use.Common()
+						if isInst(cc.StaticCallee(), impl) && len(cc.Args) >= 2 && cc.Args[0] == src && cc.Args[1] == pc {
+							paired = true
+						}
+					}
+				}
+				// or the function listens on that channel itself (ForEach has its own select)
+				for _, b2 := range fn.Blocks {
+					for _, i2 := range b2.Instrs {
+						var chans []ssa.Value
+						switch x := i2.(type) {
+						case *ssa.Select:
+							for _, st := range x.States {
+								if st.Dir == types.RecvOnly {
+									chans = append(chans, st.Chan)
+								}
+							}
+						case *ssa.UnOp:
+							if x.Op == token.ARROW {
+								chans = append(chans, x.X)
+							}
+						}
+						for _, ch := range chans {
+							if u, ok := ch.(*ssa.UnOp); ok {
+								if fa, ok := u.X.(*ssa.FieldAddr); ok && fa.X == pc {
+									paired = true
+								}
+							}
+						}
+					}
+				}
+				if !paired {
+					bad = append(bad, fmt.Sprintf("%s: %s starts the generator with a panic channel that is not the one handed, together with the generated source, to mapReduceWithPanicChan (nor does the function listen on it itself): a generator panic is reported where nobody listens and the call hangs", c.P.Pos(call.Pos()), fn.Name()))
+				}
+			}
+		}
+	}
+	sortStrings(bad)
+	o := c.R.Check(len(bad) == 0 && sites >= 1, rule, mrPkg+".buildSource#panic-channel", "every generated source is consumed by mapReduceWithPanicChan together with the panic channel its generator was started with", "-", strings.Join(bad, "; "), bad, sites)
+	o.Sites = sites
 }
